@@ -88,7 +88,12 @@ func (s *Netceptor) listen(ctx context.Context, service string, tlscfg *tls.Conf
 		connType:     connType,
 		hopsToLive:   s.maxForwardingHops,
 	}
-	pc.StartUnreachable()
+	// The packet connection of a stream listener must outlive the QUIC listener that reads from it, so its
+	// context is not a child of the Netceptor context: on shutdown the goroutine below closes the QUIC
+	// listener first and only then cancels the packet connection. If both went down at the same instant,
+	// the QUIC transport's read loop (failing ReadFrom) and ql.Close() would take the transport mutex and
+	// the server's close-once in opposite orders and block each other forever.
+	pc.startUnreachable(context.Background())
 	s.Logger.Debug("%s added service %s to listener registry", s.nodeID, service)
 	s.listenerRegistry[service] = pc
 	cfg := &quic.Config{
@@ -117,8 +122,10 @@ func (s *Netceptor) listen(ctx context.Context, service string, tlscfg *tls.Conf
 		select {
 		case <-s.context.Done():
 			_ = ql.Close()
+			pc.cancel()
 		case <-ctx.Done():
 			_ = ql.Close()
+			pc.cancel()
 		case <-doneChan:
 			return
 		}
